@@ -63,7 +63,7 @@ def expr : Expr → Bool
   | .logical op l r =>
       expr l && expr r && (Expr.valueType l).isBool && (Expr.valueType r).isBool && (op == "&&" || op == "||")
   | .group x => expr x
-  | .call _ rets args => args_ args && rets.all known
+  | .call _ rets args => args_ args && rets.all basic
   | .app _ args none => args_ args
   | .app _ args (some nx) => args_ args && chain nx
   | .sliceNew dt vals => elems dt vals && basicDt dt
@@ -102,10 +102,20 @@ def exprs : List Expr → Bool
   | [] => true
   | e :: rest => expr e && exprs rest
 
-/-- the values of a definition or assignment with one value per variable -/
+/-- the values of a definition or assignment with one value per variable: typed, one value each, and a value at all (not the
+    "result" of a function that returns nothing) -/
+def isApp : Expr → Bool
+  | .app _ _ _ => true
+  | _ => false
+
+/-- an expression that stands for a value: not the "result" of a function that returns nothing, and several values only as
+    a program call (whose standard output is taken) -/
+def hasValue (e : Expr) : Bool :=
+  (Expr.valueType e).dt != .unknown && ((Expr.valueType e).dt != .multiple || isApp e)
+
 def vals1 : List Expr → Bool
   | [] => true
-  | e :: rest => expr e && callArity1 e && vals1 rest
+  | e :: rest => expr e && callArity1 e && hasValue e && vals1 rest
 
 def varsMatch : List Var → List ValueType → Bool
   | [], [] => true
@@ -215,5 +225,81 @@ def strictEl : List (Expr × List Stmt) → Bool
   | [] => true
   | (e, body) :: rest => strictE e && strictSs body && strictEl rest
 end
+
+end Tsh.PT
+
+/-! ### calls agree with the signatures of the functions they name -/
+namespace Tsh.PT
+open Tsh Tsh.Tr
+
+structure Sig where
+  name : String
+  rets : List ValueType
+  params : List ValueType
+deriving DecidableEq, Repr
+
+/-- the arguments have the parameters' types, one each -/
+def argsMatch : List ValueType → List Expr → Bool
+  | [], [] => true
+  | p :: ps, e :: es => p.equals (Expr.valueType e) && argsMatch ps es
+  | _, _ => false
+
+def declares (F : List Sig) (n : String) (rets : List ValueType) (args : List Expr) : Bool :=
+  F.any fun f => f.name == n && f.rets == rets && argsMatch f.params args
+
+mutual
+/-- every function call in the expression names a function of `F` and passes what it takes, and is typed as returning
+    what it returns -/
+def sigE (F : List Sig) : Expr → Bool
+  | .boolLit _ | .intLit _ | .strLit _ | .varEval _ | .input none | .bad _ => true
+  | .unary _ x _ | .group x | .len x | .itoa x | .exists_ x | .read x | .input (some x) => sigE F x
+  | .binary _ l r | .compare _ l r | .logical _ l r => sigE F l && sigE F r
+  | .call n rets args => sigEs F args && declares F n rets args
+  | .app _ args none => sigEs F args
+  | .app _ args (some nx) => sigEs F args && sigE F nx
+  | .sliceNew _ vals => sigEs F vals
+  | .sliceEval v i _ => sigE F v && sigE F i
+  | .substr v a none => sigE F v && sigE F a
+  | .substr v a (some b) => sigE F v && sigE F a && sigE F b
+  | .copy _ src => sigE F src
+  | .write p d none => sigE F p && sigE F d
+  | .write p d (some a) => sigE F p && sigE F d && sigE F a
+
+def sigEs (F : List Sig) : List Expr → Bool
+  | [] => true
+  | e :: rest => sigE F e && sigEs F rest
+end
+
+/-- the signature a statement declares for the statements after it -/
+def declare (F : List Sig) : Stmt → List Sig
+  | .funcDef name _ rets params _ => ⟨name, rets, params.map (·.vt)⟩ :: F
+  | _ => F
+
+mutual
+def sigS (F : List Sig) : Stmt → Bool
+  | .varDef _ vals | .assign _ vals | .ret vals | .print vals => sigEs F vals
+  | .varDefCall _ call | .assignCall _ call => sigE F call
+  | .sliceAssign _ index value => sigE F index && sigE F value
+  | .funcDef _ _ _ _ body => sigSs F body          -- a function is not known inside its own body: no recursion
+  | .ifS cond body elifs els => sigE F cond && sigSs F body && sigEl F elifs && sigSs F els
+  | .forS init cond incr body => sigO F init && sigE F cond && sigO F incr && sigSs F body
+  | .brk | .cont => true
+  | .panic e | .expr e => sigE F e
+
+/-- statements in order: a function is known to the statements after its definition -/
+def sigSs (F : List Sig) : List Stmt → Bool
+  | [] => true
+  | s :: rest => sigS F s && sigSs (declare F s) rest
+
+def sigO (F : List Sig) : Option Stmt → Bool
+  | none => true
+  | some s => sigS F s
+
+def sigEl (F : List Sig) : List (Expr × List Stmt) → Bool
+  | [] => true
+  | (e, body) :: rest => sigE F e && sigSs F body && sigEl F rest
+end
+
+def declareAll (F : List Sig) (ss : List Stmt) : List Sig := ss.foldl declare F
 
 end Tsh.PT
